@@ -611,8 +611,12 @@ bool JareckiLysyanskayaRVSS::Share
 		complaints_counter.clear(), complaints_from.clear(); // reset for final complaint resolution
 		for (size_t j = 0; j < n; j++)
 			complaints_counter.push_back(0); // initialize counter
+		std::vector< std::vector<size_t> > complaints_against(n); // who complained against whom
 		for (std::vector<size_t>::iterator it = complaints.begin(); it != complaints.end(); ++it)
+		{
 			complaints_counter[*it]++; // count my own complaints
+			complaints_against[*it].push_back(i);
+		}
 		complaints.clear();
 		for (size_t j = 0; j < n; j++)
 		{
@@ -634,6 +638,7 @@ bool JareckiLysyanskayaRVSS::Share
 					{
 						err << "P_" << i << ": receiving complaint against P_" << who << " from P_" << j << std::endl;
 						complaints_counter[who]++;
+						complaints_against[who].push_back(j);
 						dup.insert(std::pair<size_t, bool>(who, true)); // mark as counted for $P_j$
 						if (who == i)
 							complaints_from.push_back(j);
@@ -680,6 +685,7 @@ bool JareckiLysyanskayaRVSS::Share
 			if (j != i)
 			{
 				size_t cnt = 0;
+				std::vector<size_t> answered; // complaints against $P_j$ answered correctly
 				do
 				{
 					if (!rbc->DeliverFrom(lhs, j))
@@ -739,6 +745,7 @@ bool JareckiLysyanskayaRVSS::Share
 					}
 					else
 					{
+						answered.push_back(who);
 						// don't be too curious
 						if (who == i)
 						{
@@ -751,6 +758,14 @@ bool JareckiLysyanskayaRVSS::Share
 					cnt++;
 				}
 				while (cnt <= n);
+				// every complaint against $P_j$ must have been answered
+				std::sort(answered.begin(), answered.end());
+				std::sort(complaints_against[j].begin(), complaints_against[j].end());
+				if (answered != complaints_against[j])
+				{
+					err << "P_" << i << ": not all complaints answered; complaint against P_" << j << std::endl;
+					complaints.push_back(j);
+				}
 			}
 		}
 		Qual.clear();
